@@ -90,6 +90,13 @@ auto_decode(void *coder_ptr, const lzma_allocator *allocator,
 				|| (coder->flags & LZMA_CONCATENATED) == 0)
 			return ret;
 
+		// The .xz and .lz decoders handle LZMA_CONCATENATED
+		// themselves. The .lz decoder may also have left trailing
+		// non-.lz data unread, which isn't an error. Only
+		// LZMA_Alone (get_check == NULL) needs SEQ_FINISH.
+		if (coder->next.get_check != NULL)
+			return ret;
+
 		coder->sequence = SEQ_FINISH;
 		FALLTHROUGH;
 	}
